@@ -17,7 +17,7 @@ import json
 import random
 import struct
 
-from harness import common, runner, peers, tlc, fakenet
+from harness import common, runner, peers, tlc, fakenet, wire
 from checks import multi, c07
 
 RANK = {0: 0, 2: 1, 3: 2, 1: 3, 255: 4}
@@ -45,6 +45,37 @@ def _mut(n_sel, kind_sel, fn):
             return fn(data)
         return [data]
     return mutate
+
+
+def short_padding(base):
+    """A server whose KEXINIT packets carry fewer than four bytes of padding (RFC 4253 section 6 asks for at least four; the packet is still a
+    whole number of blocks).  The tool audits such a server like any other - it is a healthy target."""
+    c = peers.ServerCfg(base)
+
+    def mutate(n, kind, idx, data):
+        if kind != 'kexinit':
+            return [data]
+        plen, pad = struct.unpack('>IB', data[:5])
+        payload = data[5:4 + plen - pad]
+        d = wire.parse_kexinit(payload[1:])
+        for k in range(9):
+            lists = {f: d[f] for f in wire.KEXINIT_FIELDS}
+            lists['lang_s2c'] = [b'x' * k] if k else []
+            pl = wire.build_kexinit(lists, cookie=d['cookie'])
+            p = (-(len(pl) + 5)) % 8
+            if p < 4:
+                return [struct.pack('>IB', len(pl) + p + 1, p) + pl + b'\x00' * p]
+        return [data]
+    c['mutate'] = mutate
+    return c
+
+
+def reply_unparseable(base):
+    """A server that answers the host-key probes' KEXDH_INIT with a well-framed message the tool cannot read a host key from (the reply cut
+    short inside its first field).  No key is measured; the audit is otherwise that of the healthy server."""
+    c = peers.ServerCfg(base)
+    c['mutate'] = _mut(None, 'kexreply', lambda d: [wire.frame(bytes([31]) + b'\x00\x00\x01')])
+    return c
 
 
 def failing():
@@ -323,6 +354,70 @@ def policy_leg(ck, H, F):
             ck.nontrivial(('policy-list', lst, k))
 
 
+def policy_json_leg(ck, H):
+    """Policy audits of a target list with -j: standard output is one JSON array with one element per target - the element that target's own
+    -P -j audit prints - whatever the other targets are.  (Healthy targets only: what a failing target leaves in a JSON document is the
+    recorded finding of the main leg.)"""
+    names = [n for n in sorted(H) if n in ('good', 'warn', 'fail', 'warn-reply-unparseable', 'warn-short-padding', 'warn-one-connection')]
+    arch = {n: ('server', H[n]) for n in names}
+    sscs = []
+    for n in names:
+        for pos in range(3):
+            sc = multi.single_scenario(arch[n], pos, json_out=True, extra=['-P', '{tmp}/policy.txt'])
+            sc['files'] = {'policy.txt': POLICY}
+            sscs.append(sc)
+    singles = {}
+    for key, r in zip([(n, pos) for n in names for pos in range(3)], runner.run_many(sscs)):
+        try:
+            if r.get('harness_error') or r.get('hang'):
+                raise ValueError('run failed')
+            singles[key] = json.loads(r['stdout'])
+        except ValueError as e:
+            # a target that is audited without complaint prints a JSON document when asked to: if it does not, that is the finding
+            ck.evaluated()
+            ck.violation('policy-json-single-target-not-json with=%s' % key[0], 'policy audit of the single target %s with -j: standard output is not a JSON document (%s)' % (key[0], e),
+                         {'target': key[0], 'stdout': (r.get('stdout') or '')[-2000:], 'exit': r.get('exit')})
+            return
+    lists = [(a, b) for a in names for b in names] + [('warn', 'warn-reply-unparseable', 'good'), ('warn-reply-unparseable', 'fail', 'warn-short-padding')]
+    lists = [l for l in lists if all(n in arch for n in l)]
+    scs, meta = [], []
+    for lst in lists:
+        for k in (1, len(lst)):
+            sc, labels = multi.scenario([arch[n] for n in lst], k, None, json_out=True, extra=['-P', '{tmp}/policy.txt'])
+            sc['files']['policy.txt'] = POLICY
+            scs.append(sc)
+            meta.append((lst, k, labels))
+    for (lst, k, labels), sc, r in zip(meta, scs, runner.run_many(scs)):
+        ck.evaluated()
+        replay = {'targets': lst, 'threads': k, 'argv': sc['argv'], 'exit': r.get('exit'), 'stdout': (r.get('stdout') or '')[-3000:]}
+        if r.get('harness_error'):
+            raise common.Machinery('policy list run failed: %r' % r.get('harness_error'))
+        tag = 'with=%s' % '+'.join(sorted(set(lst)))
+        if r.get('hang'):
+            ck.violation('policy-list-run-never-ends %s' % tag, 'policy audit (-j) of %r, %d thread(s): the run never ended' % (lst, k), replay)
+            continue
+        try:
+            doc = json.loads(r['stdout'])
+        except ValueError:
+            ck.violation('policy-json-list-unparsable %s' % tag, 'policy audit (-j) of the healthy targets %r, %d thread(s): standard output is not one JSON document' % (lst, k), replay)
+            continue
+        if not isinstance(doc, list) or len(doc) != len(lst):
+            ck.violation('policy-json-list-element-count %s' % tag, 'policy audit (-j) of %r, %d thread(s): %s, %d targets listed'
+                         % (lst, k, ('%d elements' % len(doc)) if isinstance(doc, list) else 'not an array', len(lst)), replay)
+            continue
+        ok = True
+        by_host = {el.get('host'): el for el in doc if isinstance(el, dict)}
+        for i, n in enumerate(lst):
+            host = labels[i].rsplit(':', 1)[0]
+            if by_host.get(host) != singles[(n, i)]:
+                ck.violation('policy-json-list-element-differs %s' % tag, 'policy audit (-j) of %r, %d thread(s): the element of %s (%s) is not the document of its own audit' % (lst, k, host, n), replay)
+                ok = False
+                break
+        if ok:
+            ck.cov['traces_validated_against_impl'] += 1
+            ck.nontrivial(('policy-json-list', lst, k))
+
+
 def schedule_leg(ck, tier, H, F, rnd):
     """A healthy target whose findings come from its probes, next to a target that fails, on two worker threads driven through the
     schedules of SshSched.tla: the healthy target's JSON result is its single-target result under every schedule."""
@@ -400,7 +495,7 @@ def run(tier):
     # Their result is a report (all of it from the first connection), like any healthy target's.
     c1 = peers.ServerCfg(H['warn']); c1['refuse_after'] = 1
     c2 = peers.ServerCfg(H['fail']); c2['maxstartups_after'] = 1
-    H = dict(H, **{'warn-one-connection': c1, 'fail-probes-turned-away': c2})
+    H = dict(H, **{'warn-one-connection': c1, 'fail-probes-turned-away': c2, 'warn-short-padding': short_padding(H['warn']), 'warn-reply-unparseable': reply_unparseable(H['warn'])})
     arch = {n: ('server', c) for n, c in H.items()}
     arch.update(F)
     # single-target references
@@ -414,8 +509,14 @@ def run(tier):
                 sidx.append((n, js, pos))
     sres = dict(zip(sidx, runner.run_many(sscs)))
     status_of = {n: sres[(n, False, 0)]['exit'] for n in names}
-    for n in H:
-        common.require(status_of[n] == {'good': 0, 'warn': 2, 'fail': 3}[n.split('-')[0]], 'healthy archetype %s exits %r' % (n, status_of[n]))
+    for n in sorted(H):
+        if status_of[n] != {'good': 0, 'warn': 2, 'fail': 3}[n.split('-')[0]]:
+            # the three plain archetypes must be healthy (else nothing below means anything); a derived one that this tree does not audit to
+            # the end is, for this tree, one more failing target: the lists it is on are judged as such
+            common.require('-' in n, 'healthy archetype %s exits %r' % (n, status_of[n]))
+            ck.log('archetype %s is not audited to the end by this tree (status %r): treated as a failing target' % (n, status_of[n]))
+            F = dict(F, **{n: arch[n]})
+            H = {k_: v for k_, v in H.items() if k_ != n}
     lists = []
     hn, fn = sorted(H), sorted(F)
     for f in fn:
@@ -520,6 +621,7 @@ def run(tier):
     duplicates_leg(ck, H)
     json_options_leg(ck, H)
     policy_leg(ck, H, F)
+    policy_json_leg(ck, H)
     catchall_leg(ck, H)
     rate_check_leg(ck, H)
     schedule_leg(ck, tier, H, F, rnd)
